@@ -14,6 +14,16 @@ PAIR = {'roles': ['c', 's'], 'qsids': [1, 2, 3], 'max_closed': 2, 'cfg': {'c': F
         'setup': [{'a': 'call', 'x': 'c', 'c': {'op': 'init'}}, {'a': 'call', 'x': 's', 'c': {'op': 'init'}},
                   {'a': 'dlv', 'x': 's', 'k': 1}, {'a': 'dlv', 'x': 'c', 'k': 2}, {'a': 'dlv', 'x': 's', 'k': 1}]}
 MANUAL = [
+    ('sent_window_overflow_unchecked', ['C01'],
+     'update_settings announces an INITIAL_WINDOW_SIZE which, added to a stream window the same endpoint has enlarged with '
+     'increment_flow_control_window, exceeds 2^31-1: the receiving h2 endpoint must treat the SETTINGS frame as a '
+     'FLOW_CONTROL_ERROR and closes the connection (a successful send that the peer does not accept); found by trace validation: '
+     'P_C01_DeliveredSendsAccepted on recorded trace pair/flow/2028', PAIR,
+     [{'a': 'call', 'x': 'c', 'c': {'op': 'hdr', 'sid': 1, 'h': 'req_get', 'es': False, 'pr': []}},
+      {'a': 'dlv', 'x': 's', 'k': 1},
+      {'a': 'call', 'x': 'c', 'c': {'op': 'inc', 'n': 65535, 'sid': [1]}},
+      {'a': 'call', 'x': 'c', 'c': {'op': 'set', 's': [[4, 2147483647]]}},
+      {'a': 'dlv', 'x': 's', 'k': 2}]),
     ('sent_body_length_unchecked', ['C01'],
      'send_data/end_stream let the application send a body whose length contradicts the content-length it declared in its own '
      'header block; the receiving h2 endpoint then refuses the message with InvalidBodyLengthError and closes the connection (a '
